@@ -268,13 +268,27 @@ FalseForms ==
   Flat([i \in DOMAIN tests |-> << Bin("and", tests[i], bad), Bin("and", tests[i], optUse), ite(tests[i], bad, V(VTrue)), ite(tests[i], optUse, V(VTrue)),
                                     Bin("or", Un("not", tests[i]), bad), tests[i] >>])
   \o << Ext("nosuch", <<>>), Bin("eq", Ext("nosuch", <<>>), V(VInt(1))), Bin("and", V(VFalse), Ext("nosuch", <<>>)), Ext("nosuch", <<P, R>>) >>
+\* `is` (and ==, in) on an operand whose type is a UNION of entity types: the test is neither True nor False, so
+\* what it guards on either side must be checked
+UnionIsForms ==
+  LET is(a, ty) == [op |-> "is", a |-> a, ty |-> ty]  ite(c, t, e) == [op |-> "if", c |-> c, t |-> t, e |-> e]
+      union == ite(Acc(P, "flag"), P, R)           \* User | Doc under view
+      unionRec == Acc(ite(Acc(P, "flag"), [op |-> "rec", kv |-> <<[key |-> "e", val |-> P]>>], [op |-> "rec", kv |-> <<[key |-> "e", val |-> R]>>]), "e")
+      bads == << Bin("gt", Acc(R, "age"), V(VInt(0))), Bin("eq", Acc(P, "nosuch"), V(VInt(1))), Bin("eq", Bin("add", V(VInt(1)), Str(<<120>>)), V(VInt(2))),
+                 Bin("gt", Acc(P, "opt"), V(VInt(1))) >>
+      tests(u) == << is(u, "User"), is(u, "Doc"), is(u, "Group"), Bin("eq", u, P), Bin("eq", u, R), Bin("in", u, V(E("Group", "g1"))),
+                     [op |-> "isIn", a |-> u, ty |-> "User", e |-> V(E("Group", "g1"))] >>
+      allTests == tests(union) \o tests(unionRec) IN
+  Flat([t \in DOMAIN allTests |-> Flat([b \in DOMAIN bads |->
+     << Bin("or", allTests[t], bads[b]), Bin("and", Un("not", allTests[t]), bads[b]), ite(allTests[t], V(VTrue), bads[b]),
+        Bin("and", allTests[t], bads[b]), ite(allTests[t], bads[b], V(VTrue)) >>])])
 Conds ==
   Flat(<< [i \in 1..NL |-> Bin("eq", Leaves[i], Leaves[i])],
           Flat([o \in DOMAIN BinOps |-> Flat([i \in 1..NL |-> [j \in 1..NL |-> Bin(BinOps[o], Leaves[i], Leaves[j])]])]),
           Flat([o \in DOMAIN UnOps |-> [i \in 1..NL |-> Un(UnOps[o], Leaves[i])]]),
           Flat([f \in DOMAIN Ext1 |-> [i \in 1..NL |-> Ext(Ext1[f], <<Leaves[i]>>)]]),
           Flat([f \in DOMAIN Ext2 |-> Flat([a \in DOMAIN Sel |-> [b \in DOMAIN Sel |-> Ext(Ext2[f], <<Leaves[Sel[a]], Leaves[Sel[b]]>>)]])]),
-          FalseForms \o InForms \o IsLikeForms \o CapForms \o GuardMatrix \o LubForms \o Guarded >>)
+          UnionIsForms \o FalseForms \o InForms \o IsLikeForms \o CapForms \o GuardMatrix \o LubForms \o Guarded >>)
 \* KindForms are emitted under three action scopes of their own (idx beyond Conds)
 NKind == 3 * Len(KindForms)
 KindPolicy(j) ==        \* j in 1 .. NKind
@@ -283,7 +297,7 @@ KindPolicy(j) ==        \* j in 1 .. NKind
    action |-> CASE sc = 1 -> ScopeEq(E("Action", "edit")) [] sc = 2 -> ScopeAll [] OTHER -> ScopeIn(E("Action", "all")),
    resource |-> ScopeAll, conds |-> <<[kind |-> "when", body |-> KindForms[f]]>>]
 
-NSpecial == Len(Guarded) + Len(GuardMatrix) + Len(LubForms) + Len(CapForms) + Len(InForms) + Len(IsLikeForms) + Len(FalseForms)
+NSpecial == Len(Guarded) + Len(GuardMatrix) + Len(LubForms) + Len(CapForms) + Len(InForms) + Len(IsLikeForms) + Len(FalseForms) + Len(UnionIsForms)
 ActionScope(k) == CASE k = 1 -> ScopeEq(E("Action", "view")) [] k = 2 -> ScopeAll [] OTHER -> ScopeIn(E("Action", "all"))
 PolicyOf(i) ==
   [effect |-> "permit", annos |-> <<>>, principal |-> ScopeAll, action |-> ActionScope(IF i > Len(Conds) - NSpecial THEN 1 ELSE IF i % 7 = 0 THEN 2 ELSE IF i % 11 = 0 THEN 3 ELSE 1),
